@@ -226,8 +226,14 @@ def gen_triple(g):
             names[-1] = names[0]
         else:
             defect = None
+    names_as = rng.choice(["tuple", "tuple", "list", "poly"])
+    if defect is None and rng.random() < 0.5:
+        if nn == 1:
+            names_as = "string"          # names="q3": the one indeterminate
+        elif names == ["q%d" % i for i in range(nn)]:
+            names_as = "prefix"          # names="q": expands to q0 .. q(n-1)
     return {"names": names, "rows": rows, "coefs": G.nested_map(G.jnum, coefs), "kind": kind,
-            "shape": list(shape), "defect": defect,
+            "shape": list(shape), "defect": defect, "names_as": names_as,
             "retain_coefficients": rng.choice([True, False]), "retain_names": rng.choice([True, False]),
             "how": rng.choice(["explicit", "explicit", "options", "clean", "clean_options", "method",
                                "explicit_vs_global", "explicit_vs_global", "clean_vs_global"])}
@@ -251,27 +257,40 @@ def run_triple(case, ctx):
     ctx.count("constructor_cases")
     defaults = numpoly.get_options()
 
+    names_as = case.get("names_as", "tuple")
+    facts["names_as"] = names_as
+    names_arg = names
+    if names_as == "list":
+        names_arg = list(names)
+    elif names_as == "string":
+        names_arg = names[0]
+    elif names_as == "prefix":
+        names_arg = "q"
+    elif names_as == "poly" and len(set(names)) == len(names):
+        names_arg = numpoly.symbols(" ".join(names), asarray=True)
+    ctx.count("names_as_" + names_as)
+
     def build():
         exps = numpy.array(rows, dtype=int).reshape(len(rows), len(names))
         if how == "explicit":
-            return numpoly.polynomial_from_attributes(exps, coefs, names, retain_coefficients=rc,
+            return numpoly.polynomial_from_attributes(exps, coefs, names_arg, retain_coefficients=rc,
                                                       retain_names=rn)
         if how == "method":
-            return numpoly.ndpoly.from_attributes(exps, coefs, names, retain_coefficients=rc,
+            return numpoly.ndpoly.from_attributes(exps, coefs, names_arg, retain_coefficients=rc,
                                                   retain_names=rn)
         if how in ("explicit_vs_global", "clean_vs_global"):
             # the explicit flags must win over whatever the global options say
             with numpoly.global_options(retain_coefficients=not rc, retain_names=not rn):
                 if how == "explicit_vs_global":
-                    return numpoly.polynomial_from_attributes(exps, coefs, names,
+                    return numpoly.polynomial_from_attributes(exps, coefs, names_arg,
                                                               retain_coefficients=rc, retain_names=rn)
-                full = numpoly.polynomial_from_attributes(exps, coefs, names,
+                full = numpoly.polynomial_from_attributes(exps, coefs, names_arg,
                                                           retain_coefficients=True, retain_names=True)
                 return numpoly.clean_attributes(full, retain_coefficients=rc, retain_names=rn)
         if how == "options":
             with numpoly.global_options(retain_coefficients=rc, retain_names=rn):
-                return numpoly.polynomial_from_attributes(exps, coefs, names)
-        full = numpoly.polynomial_from_attributes(exps, coefs, names, retain_coefficients=True,
+                return numpoly.polynomial_from_attributes(exps, coefs, names_arg)
+        full = numpoly.polynomial_from_attributes(exps, coefs, names_arg, retain_coefficients=True,
                                                   retain_names=True)
         if how == "clean":
             return numpoly.clean_attributes(full, retain_coefficients=rc, retain_names=rn)
